@@ -36,6 +36,9 @@
 (*   Reset(h)       bc.Reset as the CLI does it (clean stop, reopen, three *)
 (*                  stage batches, RAM re-initialised)                      *)
 (*   Lookup(i)      GetHeaderHash(i) (changes the LRU)                      *)
+(*   Retrust(t)     a node synchronised from genesis is stopped and        *)
+(*                  reopened with TrustedHeader t configured (t at or      *)
+(*                  below its header height, t beyond page 0)              *)
 (*                                                                         *)
 (* TLC checks the ABSTRACT predicates of HeaderHashes.tla in every         *)
 (* reachable state (AbsAnswers, AbsTip, AbsHeights, AbsReset), that init() *)
@@ -53,6 +56,9 @@
 (*                    real code: restart panics / fails / comes back with  *)
 (*                    a wrong list whenever T is not in page 0; candidate  *)
 (*                    fix: .work/c02-headerhashes-candidate-fix.diff)      *)
+(*  "FixV1"           the first candidate repair: previous page read iff   *)
+(*                    stored >= Page and stored >= T - loses the pages of  *)
+(*                    a full database that gets a TrustedHeader later      *)
 (*  "GCLastPage"      page GC may delete the newest complete page          *)
 (*  "ResetKeepsPages" Reset does not delete the pages above its target     *)
 (*  "ResetKeepsLRU"   Reset keeps the LRU of pages                          *)
@@ -64,16 +70,18 @@ EXTENDS Integers, Sequences, FiniteSets, TLC
 
 CONSTANTS MaxH,      \* canonical chain 0..MaxH
           Page,      \* headerBatchCount
-          TSet,      \* TrustedHeader.Index is chosen from this set (0 = none) and fixed for the behaviour
+          TSet,      \* TrustedHeader.Index the node is CREATED with is chosen from this set (0 = none)
+          RSet,      \* indexes a TrustedHeader may be configured at LATER, on a database synchronised from genesis
           RUB,       \* RemoveUntraceableBlocks
           MTB, GCP,  \* MaxTraceableBlocks, GarbageCollectionPeriod
           MaxCrash, MaxReset,
           Dev
 
 VARIABLES disk, view, mem, lru, up, dead, gcLast, pc, acc, crashes, resets, last,
-          tr        \* TrustedHeader.Index of this node
+          tr,       \* TrustedHeader.Index the node is configured with now
+          base      \* TrustedHeader.Index the database was created with (its list starts there)
 
-vars == <<disk, view, mem, lru, up, dead, gcLast, pc, acc, crashes, resets, last, tr>>
+vars == <<disk, view, mem, lru, up, dead, gcLast, pc, acc, crashes, resets, last, tr, base>>
 
 T == tr
 EmptyF == [x \in {} |-> 0]
@@ -86,8 +94,8 @@ PageOf(i)  == (i \div Page) * Page
 Max(a, b)  == IF a > b THEN a ELSE b
 Min(a, b)  == IF a < b THEN a ELSE b
 MinSet(S)  == CHOOSE x \in S : \A y \in S : x <= y
-\* what THIS node's list holds for index i: nothing (zero) below the trusted header
-Own(i)     == IF i < T THEN 0 ELSE C(i)
+\* what THIS node's list holds for index i: nothing (zero) below the trusted header it was created with
+Own(i)     == IF i < base THEN 0 ELSE C(i)
 OwnPage(s) == [k \in 1..Page |-> Own(s + k - 1)]
 Put(f, k, v) == [x \in DOMAIN f \cup {k} |-> IF x = k THEN v ELSE f[x]]
 Drop(f, S)   == [x \in DOMAIN f \ S |-> f[x]]
@@ -117,13 +125,17 @@ FreshDisk ==
 InitMem(d) ==
     IF d.cur < T THEN [ok |-> TRUE, mem |-> [FreshMem EXCEPT !.bh = d.blk]]
     ELSE
-    LET base    == IF "StoredFromBlock" \in Dev THEN d.blk ELSE d.cur
-        stored  == ((base + 1) \div Page) * Page
+    LET from    == IF "StoredFromBlock" \in Dev THEN d.blk ELSE d.cur
+        stored  == ((from + 1) \div Page) * Page
         missing == ((T + 1) \div Page) * Page
+        havePrev == (stored - Page) \in DOMAIN d.pages
+        \* design: the previous page is read whenever there is one; a missing page is excused only when the
+        \* trusted start explains it (the list of a node created from TrustedHeader T begins in T's page)
+        excused == T > 0 /\ stored <= T
         readPrev == IF "TrustedInit" \in Dev
                     THEN stored >= Page /\ ((stored > missing /\ stored - missing >= Page) \/ (d.cur % Page # T % Page))
-                    ELSE stored >= Page /\ stored >= T
-        havePrev == (stored - Page) \in DOMAIN d.pages
+                    ELSE IF "FixV1" \in Dev THEN stored >= Page /\ stored >= T
+                    ELSE stored >= Page /\ ~(~havePrev /\ excused)
         prev    == IF readPrev /\ havePrev THEN d.pages[stored - Page] ELSE Zeros(Page)
         walk    == d.cur >= stored
         tgt0    == IF stored >= Page THEN prev[Page] ELSE 0
@@ -132,7 +144,7 @@ InitMem(d) ==
         \* heights whose header record the walk reads: from cur down to (excluding) the header with hash tgt
         need    == IF tgt = 0 THEN 0..d.cur ELSE tgt..d.cur
         hdrs    == [k \in 1..Cardinality(need) |-> C(MinSet(need) + k - 1)]
-        padLen  == IF "TrustedInit" \in Dev THEN d.cur - Len(hdrs) ELSE T - stored
+        padLen  == IF "TrustedInit" \in Dev THEN d.cur - Len(hdrs) ELSE IF T >= stored THEN T - stored ELSE 0
         latest  == IF ~walk THEN <<>>
                    ELSE IF padLeft THEN Zeros(padLen) \o <<C(T)>> \o hdrs ELSE hdrs
     IN  IF readPrev /\ ~havePrev THEN [ok |-> FALSE, why |-> "page"]                     \* failed to retrieve header hash page
@@ -300,8 +312,18 @@ Lookup(i) ==
     /\ last' = [op |-> "look", i |-> i]
     /\ UNCHANGED <<disk, view, mem, up, dead, gcLast, pc, acc, crashes, resets>>
 
+(* An operator stops a node that was synchronised from genesis and configures a TrustedHeader at or below its
+   header height (in a page after the first; in page 0 the code deliberately forgets what lies below t). *)
+Retrust(t) ==
+    /\ Idle /\ tr = 0 /\ base = 0 /\ t >= Page /\ t <= hh
+    /\ disk' = view
+    /\ up' = FALSE /\ mem' = NoMem /\ lru' = EmptyF
+    /\ tr' = t /\ base' = base
+    /\ last' = [op |-> "retrust", t |-> t]
+    /\ UNCHANGED <<view, dead, gcLast, pc, acc, crashes, resets>>
+
 Init ==
-    /\ tr \in TSet
+    /\ tr \in TSet /\ base = tr
     /\ disk = FreshDisk /\ view = FreshDisk /\ mem = FreshMem /\ lru = EmptyF
     /\ up = TRUE /\ dead = FALSE /\ gcLast = 0 /\ pc = <<>>
     /\ acc = [hh |-> HH(FreshMem), bh |-> 0]
@@ -314,7 +336,7 @@ Step ==
     \/ \E h \in 0..MaxH : Reset(h)
     \/ R1 \/ R2 \/ R3
     \/ \E i \in 0..MaxH : Lookup(i)
-Next == Step /\ tr' = tr
+Next == (Step /\ tr' = tr /\ base' = base) \/ (\E t \in RSet : Retrust(t))
 
 Spec == Init /\ [][Next]_vars
 
@@ -330,6 +352,8 @@ AbsReset   == (Observable /\ last.op = "reset-done") => A!ResetDone(last.h, hh, 
 \* init() succeeds on every database reachable between two batches (every state is a crash point)
 CanRestart == InitMem(disk).ok
 NoDead     == ~dead
+\* IMPLEMENTATION level: configuring a TrustedHeader on a database that holds the whole list loses nothing
+KeepsList  == Observable => \A i \in 0..hh : (i >= base /\ i >= A!Floor(0, RUB, MTB, bh)) => Answer(mem, lru, view, i) = C(i)
 
 (* IMPLEMENTATION level *)
 \* the RAM of a node at header height x, however it got there (uninterrupted or restarted)
